@@ -201,10 +201,13 @@ type World struct {
 	salt atomic.Int64
 	step atomic.Int64
 
-	Park      bool // lock acquisitions may be descheduled on the virtual clock (LockYield)
-	parks     atomic.Int64
-	rootG     atomic.Int64
-	parkedNow atomic.Int64
+	Park       bool   // lock acquisitions may be descheduled on the virtual clock (LockYield)
+	Stmt       bool   // statement-level yield points are live in this run (StmtYield)
+	StmtMask   uint64 // 3, 15 or 63: one site in 4, 16 or 64 yields in a salted step
+	stmtYields atomic.Int64
+	parks      atomic.Int64
+	rootG      atomic.Int64
+	parkedNow  atomic.Int64
 
 	logMu    sync.Mutex
 	h        hash.Hash
@@ -273,6 +276,45 @@ func LockYield() {
 		w.parkedNow.Add(-1)
 	}
 }
+
+// StmtYield is the statement-level yield point the overlay generator inserts in front of every statement of the files
+// rules.json names (T6, "engine B" at statement granularity). It does nothing unless the run opted in (World.Stmt). In
+// a salted scheduler step one site in 4, 16 or 64 (World.StmtMask, drawn per run) - a pure function of the salt and the site, so it is recorded by the choice
+// vector and replays - lets every other runnable goroutine go ahead before the statement (a preemption between two
+// adjacent non-blocking statements), and in park runs half of those deschedule the goroutine on the virtual clock like
+// LockYield does. Never the scheduler's own goroutine.
+func StmtYield(site uint32) {
+	w := Cur()
+	if w == nil || !w.Stmt {
+		return
+	}
+	s := w.Salt()
+	if s == 0 {
+		return
+	}
+	h := (uint64(s)*0x9e3779b97f4a7c15 ^ uint64(site)) * 0x100000001b3
+	h ^= h >> 29
+	h *= 0xbf58476d1ce4e5b9
+	h ^= h >> 32
+	if h&w.StmtMask != 0 {
+		return
+	}
+	if g := w.rootG.Load(); g != 0 && g == goid() {
+		return
+	}
+	w.stmtYields.Add(1)
+	if w.Park && (h>>6)&1 == 0 {
+		w.parks.Add(1)
+		w.parkedNow.Add(1)
+		time.Sleep(parkDur[(h>>7)&3])
+		w.parkedNow.Add(-1)
+		return
+	}
+	runtime.Gosched()
+}
+
+// StmtYields reports how often a statement-level yield point fired in this run.
+func (w *World) StmtYields() int { return int(w.stmtYields.Load()) }
 
 // ParkedNow reports how many goroutines are descheduled at a lock acquisition right now. A harness that takes
 // "nothing is pending" for "the tool has nothing more to do" must also ask this (or move the clock first).
